@@ -59,7 +59,7 @@ class PathAbort(Exception):
 class Ev:
     """One observable event of a path."""
 
-    __slots__ = ("kind", "name", "args", "kwargs", "site", "extra", "callee")
+    __slots__ = ("kind", "name", "args", "kwargs", "site", "extra", "callee", "gen")
 
     def __init__(self, kind, name, args=(), kwargs=None, site=None, extra=None, callee=None):
         self.kind = kind
@@ -69,6 +69,7 @@ class Ev:
         self.site = site
         self.extra = extra
         self.callee = callee
+        self.gen = ()  # uids of the generators whose bodies were running, outermost first
 
     def __repr__(self):
         a = ", ".join([show(x) for x in self.args] + [f"{k}={show(v)}" for k, v in self.kwargs.items()])
@@ -165,6 +166,7 @@ class GenV:
         self.msg = msg
         started = self.state == "suspended"
         self.state = "running"
+        it.gen_stack.append(self)
         if started:
             self.to_gen.release()
         else:
@@ -173,6 +175,7 @@ class GenV:
             self.thread = threading.Thread(target=self._run, daemon=True)
             self.thread.start()
         self.to_cons.acquire()
+        it.gen_stack.pop()
         self.saved = it.frames[base:]
         del it.frames[base:]
         it.depth = depth0
@@ -373,6 +376,7 @@ class Interp:
         self.steps = 0
         self.max_steps = 400000
         self.live_gens = []
+        self.gen_stack = []
         self.dead = False
         self.chooser.cleanups.append(self.finish)
         if not getattr(program, "_prelude_builtins", False):
@@ -403,6 +407,8 @@ class Interp:
         ev = Ev(kind, name, args, kwargs, self.site(node) if node is not None else None, extra, callee)
         if self.dead:
             return ev
+        if self.gen_stack:
+            ev.gen = tuple(g.uid for g in self.gen_stack)
         self.trace.append(ev)
         if name == "hal.waitForNotifierAlarm":
             self.ticks += 1
